@@ -152,7 +152,32 @@ def et_prefix_witness():
     return p.parse(ET.fromstring(xml), QNames) == p.from_string(xml, QNames)
 
 
-EXPLAIN = dict(globals().get("EXPLAIN", {}), sources=lambda src, h: _sources(PART.get("doc", "basic"), src, h))
+EXPLAIN = {"sources": lambda src, h: _sources(PART.get("doc", "basic"), src, h), "real_text": lambda c0, c1, place: explain_real_text(c0, c1, place)}
+
+
+# ---------------------------------------------------------------------------------------------------------------------
+# the real TEXT layer of both writers (escaping, line ends, characters outside XML 1.0) - harness/textpath.py write_check
+from harness import textpath  # noqa: E402
+from harness.common import concretize, known, untraced  # noqa: E402
+
+_TP_PROP = "C08"
+_KNOWN_NONXML = known("C03-native-writer-nonxml-chars")
+
+
+def real_text(c0: int, c1: int, place: int) -> bool:
+    """
+    pre: 0 <= c0 < len(textpath.CPS)
+    pre: 0 <= c1 <= len(textpath.CPS)
+    pre: place == PART.get("place", 0)
+    post: _
+    """
+    k0, k1, kp = concretize(c0, len(textpath.CPS)), concretize(c1, len(textpath.CPS) + 1), PART.get("place", 0)
+    with untraced():
+        return result(textpath.write_check(_TP_PROP, textpath.PLACES[kp], k0, k1, _KNOWN_NONXML)["ok"])
+
+
+def explain_real_text(c0, c1, place):
+    return textpath.write_check(_TP_PROP, textpath.PLACES[place], c0, c1, _KNOWN_NONXML)
 
 
 def plan(tier):
@@ -161,6 +186,8 @@ def plan(tier):
 
     for doc in sorted(mutate.DOCS):
         jobs.append(Job("sources", {"doc": doc}, 120, 30, note="real front ends: 9 source kinds x 2 handlers"))
+    for place in range(len(textpath.PLACES)):
+        jobs.append(Job("real_text", {"place": place}, 300, 30, note="real writers / parsers on text; code points by selector"))
     return jobs
 
 
